@@ -56,7 +56,7 @@ Step ==
         /\ IF e.fam = "cache" THEN
               LET v == PcJudgeNew(e) IN
               /\ Flag(~Accept(v), l) /\ Note(IF Accept(v) THEN v.devs ELSE {})
-              /\ st' = v.st /\ U' = e.U /\ uq' = (IF "uq" \in DOMAIN e THEN e.uq ELSE 0)
+              /\ st' = v.st /\ U' = e.U /\ uq' = (IF "uq" \in DOMAIN e THEN UqPrep(e.uq) ELSE 0)
            ELSE IF e.fam = "boot" THEN
               LET v == BootJudgeNew(e) IN
               /\ Flag(~Accept(v), l) /\ Note(IF Accept(v) THEN v.devs ELSE {})
